@@ -43,7 +43,7 @@ func LoadEngine(repoDir string, overlay map[string][]byte, extSpecs []string) (*
 		ghosts: map[string]*GhostFunc{}, macros: map[string]*Macro{}, byShort: map[string]*types.Package{}, loopCache: map[*ssa.Function]*LoopInfo{},
 		constGlobals: map[string]bool{}, repoDir: repoDir, allPkgs: map[string]*packages.Package{}}
 	cfg := &packages.Config{
-		Mode:       packages.LoadAllSyntax,
+		Mode:       packages.LoadSyntax,
 		Dir:        repoDir,
 		BuildFlags: []string{"-tags=verif"},
 		Overlay:    overlay,
@@ -642,6 +642,26 @@ func (eng *Engine) typeSubstFor(fn *ssa.Function) map[string]types.Type {
 func (eng *Engine) paramNames(fc *FuncContract, sig *types.Signature, recvIface types.Type, callee *ssa.Function) ([]string, []types.Type) {
 	var names []string
 	var tys []types.Type
+	if callee != nil && len(callee.Params) == 0 && (sig.Params().Len() > 0 || sig.Recv() != nil) {
+		// body-less function (dependency loaded from export data): use the signature
+		if r := sig.Recv(); r != nil {
+			names = append(names, "recv")
+			tys = append(tys, r.Type())
+		}
+		ps := sig.Params()
+		for i := 0; i < ps.Len(); i++ {
+			n := ps.At(i).Name()
+			if len(fc.Params) == ps.Len() {
+				n = fc.Params[i]
+			}
+			if n == "" || n == "_" {
+				n = fmt.Sprintf("arg%d", i)
+			}
+			names = append(names, n)
+			tys = append(tys, ps.At(i).Type())
+		}
+		return names, tys
+	}
 	if callee != nil {
 		for _, p := range callee.Params {
 			names = append(names, p.Name())
